@@ -65,7 +65,7 @@ def run(ck):
                "(operation, canonical operands) with at least one non-empty operand")
     ck.assumptions += ["hash(frozenset(items)) idealised as injective; collisions only make __eq__ fall through to dict comparison",
                        "float exponents restricted to dyadic values where IEEE arithmetic is exact"]
-    ck.coq_build(["Properties/C04.vo", "Model/UCRun.vo"])
+    ck.coq_build(["Properties/C04.vo", "Model/UCRun.vo", "Model/PiRun.vo"])
 
     names = ["a", "b", "[c]"]
     small = [dict((n, F(e)) for n, e in zip(names, es) if e != 0)
@@ -253,7 +253,17 @@ def run(ck):
                  {"op": "seq", "init": [str(d) for d in init], "ops": ops}, ("seq", str(init), tuple(ops)))
         ck.count("sequences")
 
+    # ---------------------------------------------------------------- Buckingham pi
+    pi_cases = pi_stream(ck, rng, thorough, oracle)
+
     # ---------------------------------------------------------------- differ inside Coq
+    badpi = ck.coq_mismatches("c04pi", PI_HEADER, [c for c, _ in pi_cases], "pi_ok")
+    if badpi:
+        ck.broken.append(f"correspondence Model.PiRun.pi_ok: {len(badpi)} disagreements, first: {json.dumps(pi_cases[badpi[0]][1])}")
+        if not oracle_fail:
+            ck.violation("correspondence-pi", "model and implementation of column_echelon_form/pi_theorem disagree; no oracle failed",
+                         {"first_disagreement": pi_cases[badpi[0]][1], "n": len(badpi)}, no_input=True)
+    ck.extra["pi_cases"] = len(pi_cases)
     bad = ck.coq_mismatches("c04", HEADER, [c for c, _ in cases], "c04_ok")
     ck.extra["model_vs_impl_cases"] = len(cases)
     ck.extra["model_vs_impl_disagreements"] = None if bad is None else len(bad)
@@ -271,6 +281,84 @@ def run(ck):
                          {"first_disagreement": first[1], "coq_case": first[0], "n_disagreements": len(bad), "coq": shown},
                          no_input=True)
         ck.broken.append(f"correspondence Model.UCRun.c04_ok: {len(bad)} disagreements, first: {json.dumps(first[1])}")
+
+
+PI_HEADER = "From PintV Require Import Model.UC Model.Pi Model.PiRun.\n"
+
+
+def coq_vec(v):
+    return coq_list([coq_q(x) for x in v])
+
+
+def rank(rows):
+    """independent rank computation over Fractions"""
+    m = [list(map(F, r)) for r in rows]
+    rk, col = 0, 0
+    ncols = len(m[0]) if m else 0
+    while rk < len(m) and col < ncols:
+        piv = next((i for i in range(rk, len(m)) if m[i][col] != 0), None)
+        if piv is None:
+            col += 1
+            continue
+        m[rk], m[piv] = m[piv], m[rk]
+        for i in range(len(m)):
+            if i != rk and m[i][col] != 0:
+                f = m[i][col] / m[rk][col]
+                m[i] = [a - f * b for a, b in zip(m[i], m[rk])]
+        rk += 1
+        col += 1
+    return rk
+
+
+def pi_stream(ck, rng, thorough, oracle):
+    """column_echelon_form (exact K) and pi_theorem (K + basis oracles) on random dimension matrices"""
+    from pint.util import UnitsContainer, column_echelon_form, pi_theorem
+    out = []
+    dims_all = ["[length]", "[time]", "[mass]", "[current]", "[temperature]"]
+    for it in range(1500 if thorough else 300):
+        n, d = rng.randint(1, 6), rng.randint(1, 5)
+        A = [[rng.choice([-2, -1, 0, 0, 0, 1, 1, 2, 3]) for _ in range(d)] for _ in range(n)]   # n quantities x d dimensions
+        if rng.random() < 0.2 and n > 1:      # force dependencies
+            A[-1] = [a + 2 * b for a, b in zip(A[0], A[1 % n])]
+        matrix = [[A[q][k] for q in range(n)] for k in range(d)]    # what pint builds: d rows x n cols
+        ech, ident, _ = column_echelon_form(matrix, transpose_result=False)
+        out.append((f"KEchelon {coq_list([coq_vec(r) for r in A])} {d} {coq_list([coq_vec(r) for r in ech])} {coq_list([coq_vec(r) for r in ident])}",
+                    {"op": "column_echelon_form", "A": A}))
+        ck.case(key=("echelon", str(A)), sample={"op": "column_echelon_form", "quantity_dims": A} if it < 2 else None)
+        # invariants of the echelon step on the implementation itself
+        for e, t in zip(ech, ident):
+            comb = [sum(F(t[q]) * A[q][k] for q in range(n)) for k in range(d)]
+            oracle(comb == [F(x) for x in e], "pi-echelon-invariant", "echelon row is not the recorded combination of input rows", {"A": A})
+        # pi_theorem through the public API; dimension columns in the order pint will use
+        quantities = {}
+        for q in range(n):
+            quantities[f"q{q}"] = UnitsContainer({dims_all[k]: A[q][k] for k in range(d) if A[q][k] != 0})
+        dimset = set()
+        for v in quantities.values():
+            dimset = dimset.union(v.keys())
+        order = list(dimset)
+        if not order:
+            # every input is dimensionless: the basis is the inputs themselves
+            try:
+                r0 = pi_theorem(quantities)
+                oracle(len(r0) == n, "pi-no-dimensions", "pi_theorem on all-dimensionless inputs does not return one group per input", {"quantities": {k: dict(v) for k, v in quantities.items()}})
+            except IndexError:
+                oracle(False, "pi-no-dimensions", "pi_theorem raises IndexError when every input is dimensionless", {"quantities": {k: dict(v) for k, v in quantities.items()}})
+            continue
+        res = pi_theorem(quantities)
+        Aord = [[quantities[f"q{q}"][dname] for dname in order] for q in range(n)]
+        vecs = [[F(r.get(f"q{q}", 0)).limit_denominator(10000) for q in range(n)] for r in res]
+        out.append((f"KPi {coq_list([coq_vec(r) for r in Aord])} {len(order)} {coq_list([coq_vec(v) for v in vecs])}",
+                    {"op": "pi_theorem", "quantities": {k: dict(v) for k, v in quantities.items()}}))
+        rp = {"quantities": {k: dict(v) for k, v in quantities.items()}}
+        for v in vecs:
+            tot = [sum(v[q] * Aord[q][k] for q in range(n)) for k in range(len(order))]
+            oracle(all(x == 0 for x in tot), "pi-dimensionless", "pi_theorem returned a monomial that is not dimensionless", rp)
+        oracle(len(vecs) == n - rank(Aord), "pi-count", f"pi_theorem returned {len(vecs)} groups, nullity is {n - rank(Aord)}", rp)
+        oracle(not vecs or rank(vecs) == len(vecs), "pi-independent", "pi_theorem groups are linearly dependent", rp)
+        ck.case(key=("pi", str(Aord)))
+        ck.count("pi_theorem")
+    return out
 
 
 def replay(ck, path):
